@@ -46,7 +46,7 @@ def plan(tier, seed):
 def mandatory_bins(tier):
     b = ["curve_roundtrip", "pub_raw", "pub_uncompressed", "pub_compressed", "pub_hybrid", "pub_der_named", "pub_der_explicit", "pub_pem", "priv_raw", "priv_sec1_named", "priv_sec1_explicit",
          "priv_pkcs8_named", "priv_pkcs8_explicit", "priv_pem", "openssl_parses_library_output", "library_parses_openssl_output", "byte_equal_spki", "byte_equal_sec1", "leading_zero_coordinate",
-         "leading_zero_scalar", "small_scalar", "p256_header", "raw_fmt_inverse", "reencode_after_decode", "bec2_raw_key_wrong_length", "bec2_der_input_in_non_canonical_form", "all_prefixes", "appended_suffix", "single_byte_mutations", "pem_cut", "openssl_compressed_spki", "openssl_explicit_params", "explicit_parameters_base_point_form", "pem_text_variants"]
+         "leading_zero_scalar", "small_scalar", "p256_header", "raw_fmt_inverse", "reencode_after_decode", "bec2_raw_key_wrong_length", "bec2_der_input_in_non_canonical_form", "all_prefixes", "appended_suffix", "single_byte_mutations", "pem_cut", "openssl_compressed_spki", "openssl_explicit_params", "explicit_parameters_base_point_form", "pem_text_variants", "encodings_given_as_bytearray_or_memoryview", "pkcs8_with_attributes"]
     return b
 
 
@@ -129,6 +129,13 @@ def run_roundtrip(ns, ctx, spec):
             s = vk.to_string(form)
             expect("pub_string_" + form, lambda: K.VerifyingKey.from_string(s, curve=cv), same_pub)
             expect("pub_string_pinned_" + form, lambda: K.VerifyingKey.from_string(s, curve=cv, valid_encodings=[form]), same_pub)
+            # the same encoding handed over in other buffer types (what a network / file layer delivers)
+            ctx.bin("encodings_given_as_bytearray_or_memoryview")
+            expect("pub_string_%s_as_bytearray" % form, lambda: K.VerifyingKey.from_string(bytearray(s), curve=cv), same_pub)
+            expect("pub_string_%s_as_memoryview_of_bytearray" % form, lambda: K.VerifyingKey.from_string(memoryview(bytearray(s)), curve=cv), same_pub)
+            if form != "raw":
+                d_ = vk.to_der(form)
+                expect("pub_der_%s_as_bytearray" % form, lambda: K.VerifyingKey.from_der(bytearray(d_)), same_pub)
             if oform is not None:
                 os_ = ossl.encode_point(name, pub, oform)
                 if s != os_:
@@ -258,6 +265,20 @@ def run_roundtrip(ns, ctx, spec):
             oder = (ossl.priv_to_sec1 if fmt == "ssleay" else ossl.priv_to_pkcs8)(name, d)
             opem = pem_armor(oder, label)
             expect("openssl_priv_pem_" + fmt, lambda: K.SigningKey.from_pem(opem), same_priv)
+            if fmt == "pkcs8":
+                # PKCS#8 version 0 with the optional attributes [0] element behind the private key (as written e.g. by Windows CNG;
+                # OpenSSL reads such keys): the attributes are to be ignored
+                o8 = ossl.priv_to_pkcs8(name, d)
+                attrs = bytes.fromhex("a00d300b0603551d0f310403020080")
+                body8 = strip_outer_sequence(o8) + attrs
+                with_attrs = b"\x30" + der_len(len(body8)) + body8
+                ctx.bin("pkcs8_with_attributes")
+                try:
+                    ossl_ok = ossl.parse_private(with_attrs)[0] == d  # the construction is only used when OpenSSL itself reads it
+                except Exception:
+                    ossl_ok = False
+                if ossl_ok:
+                    expect("pkcs8_version0_with_attributes", lambda: K.SigningKey.from_der(with_attrs), same_priv)
             expect("openssl_priv_pem_crlf_" + fmt, lambda: K.SigningKey.from_pem(opem.replace(b"\n", b"\r\n")), same_priv)
             # OpenSSL writes EC PARAMETERS before the key in 'openssl ecparam -genkey' output
             if fmt == "ssleay":
@@ -357,6 +378,23 @@ def run_mutate(ns, ctx, spec):
                     offer("%s:mutated" % pname, dec, m, False, dict(rp0, data=m.hex()))
             ctx.bin("pem_cut")
     ctx.sample({"kind": "mutate", "curve": cv.name, "encodings": [e[0] for e in mine]})
+
+
+def der_len(n):
+    if n < 128:
+        return bytes((n,))
+    b = n.to_bytes((n.bit_length() + 7) // 8, "big")
+    return bytes((0x80 | len(b),)) + b
+
+
+def strip_outer_sequence(der_):
+    """content octets of the outermost SEQUENCE"""
+    assert der_[0] == 0x30
+    if der_[1] < 128:
+        return der_[2 : 2 + der_[1]]
+    k = der_[1] & 0x7F
+    n = int.from_bytes(der_[2 : 2 + k], "big")
+    return der_[2 + k : 2 + k + n]
 
 
 def run_bec2(ns, ctx, spec):
